@@ -28,7 +28,9 @@ def entry_value(c, vals):
 # ------------------------------------------------------------------------------------------------ values and lists
 def values(seed):
     f = alpha.fillers(seed, "wkval", 2, r)
-    return {"v1": f[0], "v2": f[1], "0": 0, "r+v1": r + f[0], "max": 2**256 - 1, "r": r, "1": 1}
+    # "sp": an id with all-zero machine words below non-zero ones (64-bit words [0,3,0,1]; 32-bit words [0,0,3,0,0,0,1,0]): word-skipping
+    # shortcuts of the scalar multiplications see it
+    return {"v1": f[0], "v2": f[1], "0": 0, "r+v1": r + f[0], "max": 2**256 - 1, "r": r, "1": 1, "sp": (1 << 192) + (3 << 64)}
 
 
 def list_alphabet(l, names, omit_flags=(False, True), marked=("v1",)):
